@@ -321,8 +321,30 @@ def finish(run, rule, checker_cmd, extra_trusted=(), exhaustive=False, level_not
     return rc
 
 
+def regen_params(run=None):
+    """Translator part: regenerates coq/Gen/Params.v from the running code (level table, reserved names)."""
+    tmp = scratch_dir('gen')
+    try:
+        rc, out = run_impl('gen', '-', tmp + '/Params.v')
+        if rc != 0:
+            if run is not None:
+                run.add_violation('gen-failed', 'implrun gen failed: ' + out[-500:], [out[-2000:]], no_input=True)
+            return False
+        new = open(tmp + '/Params.v').read()
+        dst = COQ + '/Gen/Params.v'
+        old = open(dst).read() if os.path.exists(dst) else ''
+        if new != old:
+            open(dst, 'w').write(new)
+            if run is not None:
+                run.notes.append('Gen/Params.v changed with respect to the committed copy; dependent proofs were re-checked')
+        return True
+    finally:
+        shutil.rmtree(tmp, ignore_errors=True)
+
+
 def proof_stage(run, pid, extra_files=()):
     """Builds the Coq project, audits the property file; records obligations. Returns True when all proofs check."""
+    regen_params(run)
     ok, log = build_coq()
     bad = forbidden_scan()
     checker = 'cd /verif/coq && coq_makefile -f _CoqProject <all .v> -o Makefile && make -j%s  (full .vo build), then coqc Props/%s.v (Print Assumptions audit)' % (NPROC, pid)
